@@ -24,7 +24,7 @@ package hash
 //@   ensures glFits(fixedPrefix, glSuffix(suffix), maxLength) ==> res == fixedPrefix + glSuffix(suffix)
 //@   ensures !glFits(fixedPrefix, glSuffix(suffix), maxLength) ==> len(glHash) == 43
 //@   ensures res == glName(fixedPrefix, suffix, maxLength, glHash)
-//@   assigns glHash
+//@   assigns glHash, hashStream
 
 //@ -- The name as a function of (prefix, suffix, limit) and the hash text of the suffix.
 //@ spec func glName(p string, s string, max int, h string) string = glFits(p, glSuffix(s), max) ? p + glSuffix(s) : p + "_" + h[0:glKeep(max, p)]
